@@ -55,8 +55,20 @@ NEEDS = {
  'C09-obs-names-lru-cache-by-path': 'two statistics computations in ONE process on the same file path with different content in between (process-lifetime cache keyed by path)',
  'C18-leaf-means-inverse-permutation': 'a statistics file whose rows are not in alphabetical leaf order with a permutation containing a cycle of length >= 3 (written by the truncation stage when the leaf level is dropped)',
  'C20-is-exposed-two-levels-only': 'cloud_safe run recording a path with two or more non-existent trailing components (output in a missing directory, missing scratch directory)',
+ 'C04-raw-stats-cache-by-path': 'two runs of a stage in ONE process reading the statistics file at the same real path (direct library call or tmp_dir=None) with other content in between',
+ 'C05-shared-csr-copy-by-path': 'CSC file; an earlier iterator on the same path and layer is still referenced when the file is replaced and a new iterator is opened',
+ 'C14-otf-return-in-finally': 'mapping with on-the-fly markers in which a worker of the reference-marker or query-marker pool fails (before the mapping part has written its JSON)',
+ 'C16-placeholder-registry-across-calls': 'two validations in one process through the species-inferred mapper where the later file re-uses an unknown gene name of an earlier, successfully validated file',
+ 'C19-otf-query-marker-dir-outside-private-dir': 'mapping with on-the-fly markers failing in its SECOND sub-stage (query-marker selection or writing its JSON)',
+ 'C20-otf-schema-driven-sanitising': 'successful cloud_safe run of the on-the-fly mapper with an explicit reference_markers.precomputed_path_list',
 }
 HISTORY = {
+ 'C04-raw-stats-cache-by-path': 'OBSERVED MISS by C04 (caught by C11 as it stood, through the history replay: every scenario of a shard re-uses the input paths): C04 compared executions of one scenario with each other, and all of them saw the same stale cache. C04 now runs a HISTORY TWIN in a quarter of the scenarios -- a decoy world goes through the stage at the same input paths first, and kernel 0 reads an identical copy of the real inputs under paths the process has never seen -- so a result that depends on what was read from a path before shows up as a digest difference inside one scenario',
+ 'C05-shared-csr-copy-by-path': 'PREDICTED MISS: no scenario kept an iterator alive while the file was replaced. C05 now has a read - replace (atomic rename) - read step in 20% of the iterator scenarios; caught with 95 occurrences per quick run',
+ 'C20-otf-schema-driven-sanitising': 'PREDICTED MISS: the on-the-fly configurations never named precomputed_path_list explicitly; 40% now do',
+ 'C16-placeholder-registry-across-calls': 'caught as it stood, through the history replay (the violating validation needs one earlier validation in the same process; history minimised to one predecessor)',
+ 'C14-otf-return-in-finally': 'caught as it stood (243 grid cells) by the on-the-fly stage added to the C14 grid an hour earlier',
+ 'C19-otf-query-marker-dir-outside-private-dir': 'caught as it stood (8 occurrences) by the on-the-fly operation added to the C19 histories an hour earlier',
  'C03-fused-backfill-leaks-parent-corr': 'OBSERVED MISS by C03 (caught by C06 as it stood: the number depends on the neighbouring cell): for a single-child chain that starts at the top there is no real choice above, and the oracle checked nothing there. It now accepts both readings of "nearest level where a real choice was made" -- 1.0 or the same cell\'s correlation at the first real choice below -- and rejects anything else; caught with 147 occurrences per quick run',
  'C07-query-marker-index-dtype-from-reference': 'PREDICTED MISS: the extra-genes relation added 3 columns at the end. It now adds 3 / 20-60 / 257-400 (65537+ in the thorough tier) columns before, after or interleaved with the kept ones; caught with 21 occurrences per quick run',
  'C06-unstable-grouping-plus-skip-copy': 'caught as it stood (2 occurrences per quick run, thin); queries of 40 cells were added on this occasion',
